@@ -12,9 +12,7 @@ import (
 
 // classes of recorded findings (known_findings.d/C09.txt); they never hide another violation of the same case
 var knownClasses = map[string]bool{
-	"before-removes-chunk-newest-eq-t": true,
-	"maxdbsize-below-minsize":          true,
-	"dryrun-chunkcount-maxdbsize":      true,
+	"maxdbsize-below-minsize": true,
 }
 
 func sameObs(a, b PartObs) bool {
